@@ -4,6 +4,17 @@ from vplib import expr as E
 from rules.common import FnCtx, cmp_norm
 
 
+def _has_gt3(fx, name):
+    """the caller body itself contains a switch on `n > 3` (or its negation)"""
+    b = [x for x in fx.bodies.values() if x.sname.endswith("Cursor::" + name)][0]
+    fc = FnCtx(b)
+
+    try:
+        return bool(fc.cmp_guards(lambda op, a, b: "true" if op in ("Gt", "Le") and b == ("const", 3) else None))
+    except Exception as e:   # pragma: no cover
+        return "error: %r" % (e,)
+
+
 def fixture(fxf):
     from vplib import extract, facts as F, inline
     fx = F.load_facts([extract.facts_for_fixture()])
@@ -27,6 +38,12 @@ def fixture(fxf):
     out.append(("direct: record events / reachable without the guard", (1, 0), unguarded_records("direct")))
     out.append(("via_helper (inlined): record events / reachable without the guard", (1, 0), unguarded_records("via_helper")))
     out.append(("via_option: record events / reachable without the guard", (1, 0), unguarded_records("via_option")))
+    # the guard inside the closure of an Option combinator: with `flag == Some(_)` record() needs the false edge of `n > 3`;
+    # with `flag == None` it is reached without it, so the event stays reachable (1) but only through the None arm
+    exp = inline.expand_combinators(fx)
+    out.append(("combinators expanded in the fixture", 4, len([x for x in exp if "Cursor::via_" in x])))
+    for nm in ("via_is_some_and", "via_is_none_or", "via_map_or", "via_filter"):
+        out.append(("%s (expanded): comparison visible in the caller" % nm, True, _has_gt3(fx, nm)))
     b = [x for x in fx.bodies.values() if x.sname.endswith("Cursor::via_helper")][0]
     out.append(("via_helper (inlined): field write of the helper is visible", True, bool(FnCtx(b).field_writes("Cursor", "pos"))))
     return out
